@@ -24,6 +24,15 @@ func releaseAllocatedIPs(ippool *IPPool, session *PFCPSession) error {
 	return nil
 }
 
+// Release the TEIDs that the UPF chose for this session.
+func releaseAllocatedTEIDs(generator *FTEIDGenerator, session *PFCPSession) {
+	for _, pdr := range session.pdrs {
+		if pdr.UPAllocateFteid {
+			generator.FreeID(pdr.tunnelTEID)
+		}
+	}
+}
+
 func addPdrInfo(msg *message.SessionEstablishmentResponse, pdrs []pdr) {
 	logger.PfcpLog.Infoln("add PDRs with UPF alloc IPs to Establishment response")
 	logger.PfcpLog.Infoln("PDRs:", pdrs)
